@@ -541,13 +541,18 @@ def data_received(u: U):
     closing = u.choose(3, "closing")  # 0 open, 1 _close, 2 _force_close
     maxq = 2
     msgs = collections_deque(["old"] * n0)
+    # the parser may report that the connection switched to an upgraded protocol: together with the request that asks
+    # for it (k > 0), or later, when the body of such a request completes (its 'pending upgrade': k == 0)
+    up = u.choose(2, "parser_reports_upgrade") == 1 if not fails else False
+    up_tail = u.bytes("bytes_behind_the_upgrade_request") if up else b""
+    in_progress = u.choose(2, "handler_running") == 1
 
     class _Parser:
         def feed_data(self, d):
             log.append(("parse", d))
             if fails:
                 raise BadHttpMessage("garbage")
-            return [("M", "P")] * k, False, b""
+            return [("M", "P")] * k, up, up_tail
 
     class _Waiter:
         def __init__(self):
@@ -568,6 +573,7 @@ def data_received(u: U):
     pm = u.load(MOD, "RequestHandler._pause_msg_queue_reading")
     h = u.obj("RequestHandler",
               {"_force_close": closing == 2, "_close": closing == 1, "_payload_parser": None, "_upgraded": False,
+               "_request_in_progress": in_progress,
                "_parser": _Parser(), "_request_count": 0, "_messages": msgs, "_waiter": w, "_msg_queue_paused": False,
                "_max_msg_queue_size": maxq, "_message_tail": b"", "transport": _T(), "_read_bufsize": 65536,
                "_data_received_cb": None},
@@ -590,6 +596,17 @@ def data_received(u: U):
                 "already queued (answered in order)")
     else:
         u.check("C05.data.messages_appended_in_order", list(msgs)[n0:] == [("M", "P")] * k, "parsed messages are queued in order")
+    if up and not fails:
+        from pyvc import blen
+
+        parked = blen(fs["_message_tail"]) > 0
+        consumer = bool(k > 0 or n0 > 0 or in_progress)
+        u.check("C05.data.upgrade_tail_has_a_consumer", Implies(parked, consumer),
+                "bytes are set aside as 'data of the upgraded protocol' only while a request that may take the upgrade over "
+                "is still queued or being handled; if the request that asked for the upgrade was already answered "
+                "(its body arrived after the response), nobody will ever look at them: the requests in there are "
+                "neither answered nor is the connection closed",
+                known=[("F05b", True)], witness={"messages_in_this_read": k, "queued": n0, "handler_running": in_progress})
     added = len(msgs) - n0
     if w is not None:
         u.check("C05.data.waiter_woken_once", w.sets == (1 if added else 0), "an idle request loop is woken exactly when a message arrived")
